@@ -79,6 +79,7 @@ func (*symEngine) Generate(seed uint64, tier string) *Case {
 	}
 	b, _ := json.Marshal(&p)
 	sc := drawSched(r, 400)
+	sc.OptionalYields = true
 	if sc.Strategy == "random" && r.Chance(0.7) {
 		sc.MeanGap = Pick(r, []int{1, 2, 3, 4, 6})
 	}
